@@ -46,7 +46,7 @@ STUBS = ("#[kani::stub(std::alloc::alloc, crate::common::alloc::alloc_stub)]\n"
 if __name__ == "__main__":
     # C07: operation-counting reader; ops <= 4 * NB + 16 and the unwinding assertions bound the loops
     b7 = "use crate::common::rd::*;\nuse std::io::Cursor;\n\n" + gen("c07", "h07dec", "counting",
-        "|r: &Counting, s: u64| { assert!(r.ops as u64 <= 4 * s + 16, \"C07 stream operations are bounded linearly in the box size\"); }")
+        "|r: &Counting, _s: u64| { assert!(r.ops as usize <= 4 * r.inner.get_ref().len() + 16, \"C07 stream operations are bounded linearly in the input length\"); }")
     write_gen("c07.rs", "c06.py", b7)
     # C08: allocator stubs; every request <= 4 * NB + 64
     b8 = "use crate::common::rd::*;\nuse crate::common::alloc::*;\nuse std::io::Cursor;\n\n" + gen("c08", "h08dec", "limited",
